@@ -262,13 +262,98 @@ pub fn c14(thorough: bool, seed: u64) -> CheckOutput {
         |a, b| a.merge(b),
     );
     acc.merge(hist_acc);
+    // bounded memory over a long-running process: the SAME cycle of (configuration, entropy) pairs is
+    // generated once (after which every legitimate cache or high-water-mark buffer is saturated) and
+    // then again and again; with all generators dropped, the thread's live heap after 1, 4 and 10
+    // passes must be identical - growth that depends on how many pickles were produced is a leak
+    let n_growth = if thorough { 12 } else { 6 };
+    let growth_acc = par_run(
+        n_growth,
+        Acc::new,
+        |i, acc| {
+            let sp = Space::full();
+            let cycle_len = if thorough { 600 } else { 250 };
+            let cycle: Vec<Config> = (0..cycle_len)
+                .map(|k| {
+                    let mut c = matrix_case(k * 13 + i * 7919, seed ^ 0x6067, &sp);
+                    if c.min > 400 || c.max > 400 {
+                        c.min = 60;
+                        c.max = 300;
+                    }
+                    c.warmup = None;
+                    if k % 2 == 0 && c.mutators.is_empty() {
+                        c.mutators = ALL_MK.to_vec();
+                    }
+                    c
+                })
+                .collect();
+            let reuse_one = i % 2 == 1;
+            let pass = |cycle: &Vec<Config>| {
+                if reuse_one {
+                    // one generator for the whole pass, reconfigured through its public fields
+                    let mut g = cycle[0].build();
+                    for c in cycle {
+                        g.min_opcodes = c.min;
+                        g.max_opcodes = c.max;
+                        if let Entropy::Seed(s) = c.entropy {
+                            g.seed = Some(s);
+                        }
+                        let out = gen_once(&mut g, &c.entropy);
+                        drop(out);
+                        g.reset();
+                    }
+                    drop(g);
+                } else {
+                    for c in cycle {
+                        let mut g = c.build();
+                        let out = gen_once(&mut g, &c.entropy);
+                        drop(out);
+                        drop(g);
+                    }
+                }
+            };
+            acc.evaluations += 1;
+            pass(&cycle);
+            let l1 = live();
+            for _ in 0..3 {
+                pass(&cycle);
+            }
+            let l4 = live();
+            for _ in 0..6 {
+                pass(&cycle);
+            }
+            let l10 = live();
+            acc.count("growth_cycles_generations", (10 * cycle.len()) as u64);
+            acc.count("growth_runs", 1);
+            if l10.0 > l1.0 && l4.0 >= l1.0 && l10.0 >= l4.0 && l10.0 - l1.0 >= 64 {
+                let msg = format!(
+                    "live heap of the generating thread grows with the number of pickles although the same {} (configuration, entropy) pairs are repeated and every generator is dropped: {} bytes after 1 pass, {} after 4, {} after 10 ({} mode)",
+                    cycle.len(),
+                    l1.0,
+                    l4.0,
+                    l10.0,
+                    if reuse_one { "one reused generator per pass" } else { "fresh generator per pickle" }
+                );
+                acc.violate(Violation {
+                    property: "C14".into(),
+                    signature: format!("C14:unbounded_growth:{}", if reuse_one { "reused" } else { "fresh" }),
+                    message: msg.clone(),
+                    replay: json!({"kind": "c14-growth", "property": "C14", "seed": seed, "run": i, "cycle_len": cycle.len(),
+                        "live_bytes": [l1.0, l4.0, l10.0], "message": msg,
+                        "first_configs": cycle.iter().take(3).map(|c| c.to_json()).collect::<Vec<_>>()}),
+                });
+            }
+        },
+        |a, b| a.merge(b),
+    );
+    acc.merge(growth_acc);
     let cyc = acc.get("analysed_outputs_with_identity_cycle") + acc.get("steered_outputs_with_identity_cycle");
     if cyc < 20 {
         acc.inconclusive.push(format!("only {} analysed outputs contained an identity cycle (the leak-prone pattern)", cyc));
     }
     CheckOutput {
         acc,
-        rule: "cases = full configuration matrix (three lifecycles: drop / reset+drop / generate twice+drop), alias-heavy steered pickles and long generate/reset histories on one generator; oracle = per-thread counting allocator (live bytes and blocks before Generator::new vs after drop; a non-zero delta must reproduce 3x); distinct = distinct analysed output bytes; non-trivial = the reference machine (object identity on) saw an object stored into a container that reaches it".into(),
+        rule: "cases = full configuration matrix (three lifecycles: drop / reset+drop / generate twice+drop), alias-heavy steered pickles, long generate/reset histories on one generator, and repeated passes over one fixed cycle of cases (live heap after 1, 4 and 10 passes must be equal) ; oracle = per-thread counting allocator (live bytes and blocks before Generator::new vs after drop; a non-zero delta must reproduce 3x); distinct = distinct analysed output bytes; non-trivial = the reference machine (object identity on) saw an object stored into a container that reaches it".into(),
         extra: json!({}),
         assumptions: vec![
             "all allocations of a generation happen on the calling thread (no threads in the library)".into(),
@@ -442,7 +527,7 @@ pub fn c08(thorough: bool, seed: u64) -> CheckOutput {
     let n_sampled = if thorough { 60 } else { 12 };
     let sp = Space {
         // memo-rich ranges included: state carried across calls tends to live in the memo
-        ranges: vec![(0, 0), (1, 1), (2, 9), (10, 50), (60, 300), (7, 3), (300, 600), (300, 600), (800, 1200)],
+        ranges: vec![(0, 0), (1, 1), (2, 9), (10, 50), (60, 300), (7, 3), (300, 600), (300, 600), (800, 1200), (2500, 2600)],
         ..Space::full()
     };
     let ex = &exhaustive;
@@ -559,6 +644,8 @@ fn c09_configs(thorough: bool) -> Vec<Config> {
         rate,
         raw_rate: raw,
         warmup: None,
+        order: 0,
+        bufsize: None,
         unsafe_mut: uns,
         ext,
         buf,
@@ -1044,11 +1131,15 @@ pub fn c07(thorough: bool, seed: u64) -> CheckOutput {
     // CLI batch under different rayon widths (needs the built CLI)
     if let Ok(cli) = std::env::var("PFV_CLI") {
         let widths = ["1", "2", "3", "16"];
-        let combos: Vec<(u8, u64, Vec<&str>)> = vec![
-            (2, seed % 1000, vec![]),
-            (4, seed % 1000 + 1, vec!["--mutators", "all", "--mutation-rate", "0.5"]),
-            (5, seed % 1000 + 2, vec!["--allow-ext", "--allow-buffer", "--min-opcodes", "200", "--max-opcodes", "400"]),
-            (0, seed % 1000 + 3, vec!["--mutators", "boundary", "stringlen", "--unsafe-mutations"]),
+        // (protocol option or None = derived from the seed, seed, extra flags)
+        let combos: Vec<(Option<u8>, u64, Vec<&str>)> = vec![
+            (Some(2), seed % 1000, vec![]),
+            (Some(4), seed % 1000 + 1, vec!["--mutators", "all", "--mutation-rate", "0.5"]),
+            (Some(5), seed % 1000 + 2, vec!["--allow-ext", "--allow-buffer", "--min-opcodes", "200", "--max-opcodes", "400"]),
+            (Some(0), seed % 1000 + 3, vec!["--mutators", "boundary", "stringlen", "--unsafe-mutations"]),
+            (None, seed % 1000 + 4, vec![]),
+            (None, seed % 1000 + 5, vec!["--mutators", "all", "--unsafe-mutations"]),
+            (None, seed % 1000 + 6, vec!["--min-opcodes", "10", "--max-opcodes", "40"]),
         ];
         let tmp = std::env::temp_dir().join(format!("pfv-c07-{}", std::process::id()));
         let _ = std::fs::remove_dir_all(&tmp);
@@ -1064,8 +1155,7 @@ pub fn c07(thorough: bool, seed: u64) -> CheckOutput {
                     .arg("24")
                     .arg("--seed")
                     .arg(s.to_string())
-                    .arg("--protocol")
-                    .arg(proto.to_string())
+                    .args(proto.map(|p| vec!["--protocol".to_string(), p.to_string()]).unwrap_or_default())
                     .args(extra)
                     .env("RAYON_NUM_THREADS", w)
                     .stdout(Stdio::null())
@@ -1080,6 +1170,20 @@ pub fn c07(thorough: bool, seed: u64) -> CheckOutput {
                 if !matches!(st, Ok(s) if s.success()) {
                     acc.inconclusive.push(format!("CLI batch run failed for combo {} width {}", ci, w));
                 }
+                // with a seed every sample of one batch has the same configuration and entropy
+                let distinct: std::collections::BTreeSet<&Vec<u8>> = files.values().collect();
+                if distinct.len() > 1 {
+                    let msg = format!(
+                        "CLI batch with --seed {} (protocol {:?}, extra {:?}, RAYON_NUM_THREADS={}) wrote {} different pickles in one directory",
+                        s, proto, extra, w, distinct.len()
+                    );
+                    acc.violate(Violation {
+                        property: "C07".into(),
+                        signature: format!("C07:batch_samples_differ:P{}", proto.map(|p| p.to_string()).unwrap_or_else(|| "seed".into())),
+                        message: msg.clone(),
+                        replay: json!({"kind": "c07-cli", "property": "C07", "protocol": proto, "seed": s, "extra": extra, "message": msg}),
+                    });
+                }
                 per_width.push(files);
                 acc.count("cli_batch_runs", 1);
                 acc.evaluations += 24;
@@ -1087,12 +1191,12 @@ pub fn c07(thorough: bool, seed: u64) -> CheckOutput {
             for (wi, f) in per_width.iter().enumerate().skip(1) {
                 if *f != per_width[0] {
                     let msg = format!(
-                        "CLI batch output differs between RAYON_NUM_THREADS={} and {} (protocol {}, seed {}, extra {:?})",
+                        "CLI batch output differs between RAYON_NUM_THREADS={} and {} (protocol {:?}, seed {}, extra {:?})",
                         widths[0], widths[wi], proto, s, extra
                     );
                     acc.violate(Violation {
                         property: "C07".into(),
-                        signature: format!("C07:rayon_width:P{}", proto),
+                        signature: format!("C07:rayon_width:P{}", proto.map(|p| p.to_string()).unwrap_or_else(|| "seed".into())),
                         message: msg.clone(),
                         replay: json!({"kind": "c07-cli", "property": "C07", "protocol": proto, "seed": s, "extra": extra, "message": msg}),
                     });
